@@ -219,7 +219,8 @@ func GenSchema(t *rapid.T, o SchemaOpts) Schema {
 		if d == 0 {
 			return false
 		}
-		return rapid.IntRange(0, 7).Draw(t, label) < d
+		// drawn value 0 (what rapid shrinks towards) means "no edge"
+		return rapid.IntRange(0, 7).Draw(t, label) >= 8-d
 	}
 	for i := range st {
 		st[i].Name = names[i]
